@@ -105,21 +105,32 @@ def _build_unit(pid, uname, u, d):
     if not any(f.startswith('-fexceptions') for f in flags) and '-fno-exceptions' not in flags and not u.get('exceptions'):
         flags = flags + ['-fno-exceptions']
     cuts = u.get('cut', [])
-    if cuts:
+    devirt = u.get('devirt')   # True | [name substrings]: promote virtual calls to direct calls over the TU's vtables (tools/devirt.py)
+    unrec = u.get('unrec')     # {'entry-name-substring': depth}: unroll a (mutual) recursion so that LLVM can inline it (tools/unrec.py)
+    keepout = u.get('noinline', [])   # functions (substring of mangled name) kept out of line but translated (thread mode: executed atomically, needs allow_atomic)
+    if cuts or devirt or unrec or keepout:
         # two-stage: unoptimised IR -> mark cut functions noinline -> opt -O1, so that a cut callee is never inlined
         f2 = []
         for i, f in enumerate(flags):
             if f == '-mllvm' and flags[i + 1].startswith('-inline-threshold'): continue
             if f.startswith('-inline-threshold'): continue
             f2.append(f)
+        if devirt: f2.append('-fno-discard-value-names')
         rc, out, dt, to = sh(f2 + ['-Xclang', '-disable-llvm-passes', wrapper, '-o', os.path.join(d, 'w.raw.ll')], timeout=300)
         if rc != 0: raise Inconclusive('clang failed for %s:\n%s' % (u['wrapper'], out[-3000:]))
+        if devirt:
+            rc, out, dt, to = sh([sys.executable, os.path.join(TOOLS, 'devirt.py'), os.path.join(d, 'w.raw.ll'), os.path.join(d, 'w.raw.ll')] +
+                                 (list(devirt) if isinstance(devirt, (list, tuple)) else []), timeout=300)
+            if rc != 0: raise Inconclusive('devirt failed for %s:\n%s' % (u['wrapper'], out[-3000:]))
+        for ent, depth in (unrec or {}).items():
+            rc, out, dt, to = sh([sys.executable, os.path.join(TOOLS, 'unrec.py'), os.path.join(d, 'w.raw.ll'), os.path.join(d, 'w.raw.ll'), ent, str(depth)], timeout=300)
+            if rc != 0: raise Inconclusive('unrec failed for %s:\n%s' % (u['wrapper'], out[-3000:]))
         lines = open(os.path.join(d, 'w.raw.ll')).read().split('\n')
         ncut = 0
         for i, line in enumerate(lines):
-            if line.startswith('define ') and any(c in line.split('(')[0] for c in cuts):
-                lines[i] = re.sub(r'\)( [^()]*)?\{$', lambda m: ') noinline' + (m.group(1) or ' ') + '{', line); ncut += 1
-        if ncut == 0: raise Inconclusive('cut functions %s not found in IR of %s' % (cuts, u['wrapper']))
+            if line.startswith('define ') and any(c in (line.split(' @', 1)[1] if ' @' in line else line).split('(')[0] for c in list(cuts) + list(keepout)):   # name = text after the first ' @' (return attrs like dereferenceable(8) contain parentheses)
+                lines[i] = re.sub(r'\)( (?:local_)?unnamed_addr)?( [^()]*)?\{$', lambda m: ')' + (m.group(1) or '') + ' noinline' + (m.group(2) or ' ') + '{', line); ncut += 1   # (unnamed_addr must precede function attributes)
+        if ncut == 0 and (cuts or keepout): raise Inconclusive('cut functions %s not found in IR of %s' % (cuts, u['wrapper']))
         open(os.path.join(d, 'w.raw.ll'), 'w').write('\n'.join(lines))
         rc, out, dt, to = sh(['opt-14', '-O1', '-disable-loop-unrolling', '-inline-threshold=%d' % u.get('inline_threshold', 100000), '-S',
                               os.path.join(d, 'w.raw.ll'), '-o', os.path.join(d, 'w.ll')], timeout=300)
@@ -147,6 +158,7 @@ def _build_unit(pid, uname, u, d):
         src = 'w.u.ll'
     cmd = [sys.executable, os.path.join(TOOLS, 'ir2c.py'), os.path.join(d, src), os.path.join(d, 'w')]
     if u.get('tso'): cmd.append('--tso')
+    if u.get('prune'): cmd.append('--prune')
     for c in cuts: cmd += ['--cut', c]
     for fn, sfx in (u.get('threads') or {}).items():
         cmd += ['--thread', fn + (':' + ','.join(sfx) if sfx and sfx != [''] else '')]
